@@ -3,8 +3,8 @@
 //! batches, optionally through EventBuffer::serialize -> deserialize), then `SELECT cols FROM t` in
 //! row and column format, memory-only or on disk with force_flush between segments, and compare
 //! every cell with what was supplied.
-use crate::colbuf::{nontrivial, shape_of, V};
-use crate::dump::{install_panic_hook, last_panic_location, skeleton};
+use crate::colbuf::{nontrivial, shape_of, shape_tag, V};
+use crate::dump::{install_panic_hook, last_panic_location, panics_seen, skeleton, take_panics};
 use crate::ops::*;
 use crate::values::*;
 use locustdb::{BasicTypeColumn, LocustDB, Options, Value};
@@ -271,6 +271,25 @@ impl Drop for Db {
     }
 }
 
+/// remove scratch directories left behind by harness processes that no longer exist
+fn cleanup_stale_scratch() {
+    static ONCE: std::sync::Once = std::sync::Once::new();
+    ONCE.call_once(|| {
+        if let Ok(rd) = std::fs::read_dir("/verif/.cache/scratch") {
+            for e in rd.flatten() {
+                let name = e.file_name().to_string_lossy().to_string();
+                if let Some(rest) = name.strip_prefix("col-") {
+                    if let Some(pid) = rest.split('-').next().and_then(|p| p.parse::<u32>().ok()) {
+                        if pid != std::process::id() && !std::path::Path::new(&format!("/proc/{}", pid)).exists() {
+                            let _ = std::fs::remove_dir_all(e.path());
+                        }
+                    }
+                }
+            }
+        }
+    });
+}
+
 static DB_COUNTER: AtomicUsize = AtomicUsize::new(0);
 
 fn open_db(cfg: &Cfg) -> Db {
@@ -333,10 +352,13 @@ fn run_table(cfg: &Cfg, segs: &[Vec<Batch>], colnames: &[String], tables: &[Vec<
     let tables: Vec<Vec<(bool, TableBuffer)>> =
         segs.iter().zip(tables.iter()).map(|(s, t)| s.iter().zip(t.iter()).map(|(b, t)| (b.wire, t.clone())).collect()).collect();
     let (tx, rx) = std::sync::mpsc::channel();
+    let dir_slot: std::sync::Arc<std::sync::Mutex<Option<std::path::PathBuf>>> = Default::default();
+    let dir_slot2 = dir_slot.clone();
     // the whole database lifetime runs on its own thread so that a hang can be reported
     std::thread::spawn(move || {
         let r = std::panic::catch_unwind(move || -> Result<Selected, Fail> {
             let holder = open_db(&cfg);
+            *dir_slot2.lock().unwrap() = holder.dir.clone();
             let db = holder.db.as_ref().unwrap();
             let rt = runtime();
             let nseg = tables.len();
@@ -361,9 +383,9 @@ fn run_table(cfg: &Cfg, segs: &[Vec<Batch>], colnames: &[String], tables: &[Vec<
             let mut sel = Selected { rows: BTreeMap::new(), columns: BTreeMap::new() };
             for rowformat in [true, false] {
                 let fut = db.run_query(&q, false, rowformat, vec![]);
-                let out = rt.block_on(async { tokio::time::timeout(Duration::from_secs(20), fut).await });
+                let out = rt.block_on(async { tokio::time::timeout(Duration::from_secs(6), fut).await });
                 let out = match out {
-                    Err(_) => return Err(Fail::Hang(format!("query did not complete within 20 s (rowformat={})", rowformat))),
+                    Err(_) => return Err(Fail::Hang(format!("query did not complete within 6 s (rowformat={})", rowformat))),
                     Ok(Err(e)) => return Err(Fail::Error(format!("{:?}", e))),
                     Ok(Ok(o)) => o,
                 };
@@ -379,6 +401,7 @@ fn run_table(cfg: &Cfg, segs: &[Vec<Batch>], colnames: &[String], tables: &[Vec<
                 }
             }
             drop(holder);
+            *dir_slot2.lock().unwrap() = None;
             Ok(sel)
         });
         let r = match r {
@@ -387,9 +410,33 @@ fn run_table(cfg: &Cfg, segs: &[Vec<Batch>], colnames: &[String], tables: &[Vec<
         };
         let _ = tx.send(r);
     });
-    match rx.recv_timeout(Duration::from_secs(60)) {
-        Ok(r) => r,
-        Err(_) => Err(Fail::Hang("database thread did not finish within 60 s".into())),
+    // wait; once some thread of the database has panicked give the call 3 more seconds, otherwise 60
+    let t0 = std::time::Instant::now();
+    let mut panic_seen_at: Option<std::time::Instant> = None;
+    loop {
+        match rx.recv_timeout(Duration::from_millis(50)) {
+            Ok(r) => return r,
+            Err(std::sync::mpsc::RecvTimeoutError::Disconnected) => return Err(Fail::Hang("database thread vanished".into())),
+            Err(std::sync::mpsc::RecvTimeoutError::Timeout) => {
+                if panic_seen_at.is_none() && panics_seen() > 0 {
+                    panic_seen_at = Some(std::time::Instant::now());
+                }
+                let give_up = match panic_seen_at {
+                    Some(t) => t.elapsed() > Duration::from_secs(3),
+                    None => t0.elapsed() > Duration::from_secs(60),
+                };
+                if give_up {
+                    if let Some(d) = dir_slot.lock().unwrap().take() {
+                        let _ = std::fs::remove_dir_all(d);
+                    }
+                    return Err(Fail::Hang(format!(
+                        "the call did not return ({} s after {})",
+                        if panic_seen_at.is_some() { 3 } else { 60 },
+                        if panic_seen_at.is_some() { "a panic in a database thread" } else { "it started" }
+                    )));
+                }
+            }
+        }
     }
 }
 
@@ -595,6 +642,8 @@ impl Suite for Api {
 
     fn run(&self, input: &Sx) -> Vec<Outcome> {
         install_panic_hook();
+        cleanup_stale_scratch();
+        let _ = take_panics();
         let it = input.items();
         let cfg = parse_cfg(&it[0]);
         let colnames: Vec<String> = it[1].items().iter().map(|a| a.atom().to_string()).collect();
@@ -638,15 +687,10 @@ impl Suite for Api {
                         None => ops.push(Op::Nulls(b.rows)),
                     }
                 }
-                let sh = shape_of(&ops);
-                if sh.int_min_is_i64_min_and_max_is_zero {
-                    tags.insert("min=i64::MIN,max=0");
-                }
-                if sh.increasing_step_overflows {
-                    tags.insert("increasing-step>i64::MAX");
-                }
-                if sh.null_after_mixed {
-                    tags.insert("null-after-mixed");
+                for t in shape_tag(&shape_of(&ops), cfg.batch_size).split('+') {
+                    if t != "-" {
+                        tags.insert(t.to_string());
+                    }
                 }
             }
             if tags.is_empty() { "-".into() } else { tags.into_iter().collect::<Vec<_>>().join("+") }
@@ -672,17 +716,37 @@ impl Suite for Api {
                     Fail::Error(m) => ("error", m, String::new()),
                     Fail::Hang(m) => ("hang", m, String::new()),
                 };
+                // the first panic of any thread identifies the defect; what the caller sees
+                // (panic / error value / hang) is the consequence
+                let panics = take_panics();
+                let (file, msg) = match panics.first() {
+                    Some((f, m)) if kind != "panic" => (f.clone(), format!("{} [caller saw {}: {}]", m, kind, msg)),
+                    _ => (file, msg),
+                };
+                let kind = if panics.is_empty() { kind } else { "panic" };
                 outs.push(Outcome {
                     model: None,
                     model_input: None,
                     impl_out: Some(Sx::l(vec![Sx::a(kind), Sx::a(skeleton(&msg))])),
                     oracle: Some(format!("ingest + SELECT failed ({} {}): {}", kind, file, msg)),
-                    signature: Some(format!("api-{}:{}:{}:{}", kind, file, skeleton(&msg), table_tag)),
+                    signature: Some(format!("api-{}:{}:{}:{}", kind, file, skeleton(msg.split(" [caller saw").next().unwrap_or("")), table_tag)),
                     nontrivial: true,
                 });
                 return outs;
             }
         };
+
+        let stray = take_panics();
+        if let Some((f, m)) = stray.first() {
+            outs.push(Outcome {
+                model: None,
+                model_input: None,
+                impl_out: Some(Sx::a("background-panic")),
+                oracle: Some(format!("a database thread panicked during the case although every call returned: {} {}", f, m)),
+                signature: Some(format!("api-background-panic:{}:{}:{}", f, m, table_tag)),
+                nontrivial: true,
+            });
+        }
 
         // model inputs: the ColumnData the engine received, per column and segment
         let mut floats = vec![];
